@@ -13,8 +13,43 @@ TOTAL_SCHEMAS = ["basic", "list", "strict", "title", "iso", "table"]
 OPS = ["replace", "replace_with", "insert", "delete", "replace_range", "replace_range_with", "delete_range"]
 
 
-def leaf_key(t):
-    return t
+class FitterNoProgress(Exception):
+    pass
+
+
+EVENTS: list = []
+
+
+def install_probe():
+    """Ghost event for the call-site keyed known finding: Fitter.fit() keeps calling
+    find_fittable while the unplaced slice no longer shrinks (wrappers are re-opened and
+    closed again with nothing taken).  The probe aborts such a run instead of waiting for
+    the alarm; any other hang still runs into the 2 s alarm and is reported without event."""
+    from prosemirror.transform import replace as tr_replace
+
+    F = tr_replace.Fitter
+    if getattr(F, "_verif_progress_probe", False):
+        return
+    orig = F.find_fittable
+    state = {}
+
+    def find_fittable(self):
+        key = id(self)
+        size = (self.unplaced.size, self.unplaced.open_start, self.unplaced.open_end, self.unplaced.content.size)
+        last, n = state.get(key, (None, 0))
+        n = n + 1 if last == size else 0
+        state[key] = (size, n)
+        if len(state) > 64:
+            for k in list(state)[:32]:
+                state.pop(k, None)
+        if n > 40:
+            EVENTS.append("fitter-no-progress")
+            state.pop(key, None)
+            raise FitterNoProgress("Fitter.fit: find_fittable called 40 times without the unplaced slice changing")
+        return orig(self)
+
+    F.find_fittable = find_fittable
+    F._verif_progress_probe = True
 
 
 def run_op(name, doc, op, f, t, payload):
@@ -45,11 +80,15 @@ def fillers_ok(O, extra_tokens):
 
 def check_op(rec, name, O, doc, toks, op, f, t, payload, pay_desc, pay_leaves, totality=True):
     call = dict(fn=op, schema=name, doc=D.doc_json(doc), f=f, t=t, payload=pay_desc)
+    del EVENTS[:]
     try:
         with time_limit(2):
             tr = run_op(name, doc, op, f, t, payload)
     except Timeout:
-        rec.violation("op-hangs", "no return within 2 s (totality)", call, events=["fitter"])
+        rec.violation("op-hangs", "no return within 2 s (totality)", call)
+        return None
+    except FitterNoProgress as e:
+        rec.violation("op-hangs", f"does not terminate: {e}", call, events=["fitter-no-progress"])
         return None
     except Exception as e:  # noqa: BLE001
         if totality:
@@ -111,12 +150,26 @@ def payloads(name, S, O, pool, rnd):
     if "bullet_list" in O.nodes:
         nodes.append(D.mk_node(S, "bullet_list", [D.mk_node(S, "list_item", [D.mk_node(S, "paragraph", [D.mk_text(S, "li")])])]))
     nodes = [n for n in nodes if O.valid(n) is None]
+    # one or two valid instances of every other node type (list items, cells, rows, ...)
+    have = {n.type.name for n in nodes}
+    for tname, nt in O.nodes.items():
+        if tname in have or nt.is_text or tname == O.top:
+            continue
+        for _ in range(2):
+            try:
+                n = D.rand_node(S, O, tname, rnd, depth=2, max_depth=4, width=2)
+            except Exception:  # noqa: BLE001
+                continue
+            if O.valid(n) is None and orc.normal_form(n) and orc.node_size(n) <= 14:
+                nodes.append(n)
+                break
     return nodes
 
 
 def run(tier, seed, findings, schemas=None, extra_check=None):
     from . import ops
 
+    install_probe()
     rec = Recorder("C11")
     rnd = random.Random(seed)
     for name in schemas or TOTAL_SCHEMAS:
@@ -144,7 +197,7 @@ def run(tier, seed, findings, schemas=None, extra_check=None):
                         ss = rnd.sample(pool, min(len(pool), 3 if tier == "quick" else 10))
                         cases = [(s, D.slice_json(s), orc.leafseq_frag(s.content) if hasattr(orc, "leafseq_frag") else [x for x in orc.frag_tokens(s.content) if x[0] in ("char", "leaf")]) for s in ss]
                     else:
-                        nn = rnd.sample(nodes, min(len(nodes), 2 if tier == "quick" else 5))
+                        nn = rnd.sample(nodes, min(len(nodes), 3 if tier == "quick" else 6))
                         cases = [(n, D.doc_json(n), [x for x in orc.tokens(n, top=False) if x[0] in ("char", "leaf")]) for n in nn]
                         if op == "insert" and f != t:
                             continue
